@@ -29,7 +29,8 @@ def mutate(rnd, text):
             j = min(len(b), i + rnd.randint(1, 20))
             b = b[:i] + b[i:j] * 2 + b[j:]
         else:
-            b = b[:i] + bytearray(rnd.choice([b"//{", b"%{", b"}", b"{", b"\\p{", b"\\u12", b"<-", b"'", b"/*"])) + b[i:]
+            b = b[:i] + bytearray(rnd.choice([b"//{", b"%{", b"}", b"{", b"\\p{", b"\\u12", b"<-", b"'", b"/*",
+                                              b"[\\p{L]]", b"[\\p{Foo]] ", b"[a-", b"[\\", b"\"\\x4", b"'ab'", b"(", b")?*", b"x:", b"&{", b"#{ return nil }"])) + b[i:]
     return bytes(b)
 
 def rule_names(dump):
@@ -253,6 +254,17 @@ def c04(ctx, rep):
     for k in range(1, 13):
         fam.append(("method-index-%d" % k, hdr + "Start <- A A1\nA <- %s &{ return true, nil }\nA1 <- &{ return true, nil }\n" % " ".join("'a'" for _ in range(k)),
                     [[], ["-optimize-parser"]]))
+    # a leaf rule with a code block under each kind of wrapper, inlined by -optimize-grammar into two rules that survive
+    blocks = {"action": "( d:[0-9] { return string(c.text), nil } )", "andcode": "( &{ return true, nil } [0-9] )",
+              "notcode": "( !{ return false, nil } [0-9] )", "statecode": "( #{ return nil } [0-9] )"}
+    wraps = {"plus": "%s+", "star": "%s* [0-9]", "opt": "%s? 'n'", "label": "v:%s", "and": "&%s [0-9]", "not": "!( %s 'x' ) [0-9]",
+             "choice": "( 'z' / %s )", "seq": "( 'n' %s )", "recover": "( %s //{e} [0-9] )"}
+    for bk, btxt in blocks.items():
+        for wk, wtxt in wraps.items():
+            leaf = wtxt % btxt
+            fam.append(("inlined-leaf-%s-%s" % (wk, bk),
+                        hdr + "Start <- Expr Term !.\nExpr <- Leaf '+' Expr / Leaf\nTerm <- Leaf '*' Term / Leaf\nLeaf <- %s\n" % leaf,
+                        [["-optimize-grammar"]]))
     ucl = re.findall(r'^\t"(\w+)":', open(os.path.join(C.REPO, "unicode_classes.go")).read(), re.M)
     for i in range(0, len(ucl), 40):
         chunk = ucl[i:i + 40]
